@@ -24,6 +24,9 @@ def layouts(quick):
         L.append(('pair ' + o1, [OPER, [o1], OPER, INFIX_ALL, OPER]))
     for o1 in INFIX:
         L.append(('not-pair ' + o1, [['Not'], ['Identifier'], [o1], ['Identifier', 'Not'], INFIX_ALL + ['Identifier'], ['Identifier']]))
+    for o1 in INFIX_ALL:     # parenthesised operands, negated: !(a op b), !(a op b) op c, a op (b op c)
+        L.append(('paren ' + o1, [['Not', 'Identifier'], ['Lparen'], ['Identifier'], [o1], ['Identifier'], ['Rparen'], INFIX_ALL + ['Rbracket'], ['Identifier']]))
+        L.append(('paren-not ' + o1, [['Not'], ['Lparen'], OPER, [o1], OPER, ['Rparen']]))
     for p in POST:           # a <postfix> <any> <any> : what follows a projection / index / call
         L.append(('post ' + ' '.join(p), [['Identifier']] + [[k] for k in p] + [ALL, ALL]))
         L.append(('post-op ' + ' '.join(p), [['Identifier']] + [[k] for k in p] + [INFIX_ALL + ['Flatten', 'Filter'], ['Identifier'], INFIX_ALL + ['Rbracket'], ['Identifier', 'Rbracket']]))
